@@ -510,7 +510,11 @@ func (s *searcher) history(n int) {
 			continue
 		}
 		lines = append(lines, vline(pk, pi, m), vline(pk, flip(pi, s.r.Intn(640)), m), "prove "+hx.Hex(sk)+" "+hx.Hex(m),
-			fmt.Sprintf("qn %d %s 10 0 %d", thr, hx.Hex(pi), 1+s.r.Intn(12)))
+			fmt.Sprintf("qn %d %s 10 0 %d", thr, hx.Hex(pi), 1+s.r.Intn(12)),
+			fmt.Sprintf("vbv %d %s %s %s 10 0 1 3 0", thr, hx.Hex(pk), hx.Hex(pi), hx.Hex(m)),
+			fmt.Sprintf("vbv %d %s %s %s 10 0 1 3 0", thr, hx.Hex(pk), hx.Hex(pi), hx.Hex(flip(m, s.r.Intn(256)))),
+			fmt.Sprintf("vbt %d %s %s %s 0 10 0 1 3 0", thr, hx.Hex(pk), hx.Hex(pi), hx.Hex(m)),
+			fmt.Sprintf("vbt %d %s %s %s 2000000000 10 0 1 3 0", thr, hx.Hex(pk), hx.Hex(pi), hx.Hex(m)))
 	}
 	run := func(order []int) []string {
 		res := make([]string, len(lines))
@@ -763,6 +767,91 @@ func (s *searcher) proveValueLengths(n int) {
 	}
 }
 
+// headerSequences: every verification entry point exercised as a SEQUENCE on one process. First a valid
+// (pk, M1, proof) is verified (must be accepted), then the SAME proof and key with another message M2 != M1
+// (bit-flipped parent random, another time slot, both) and the same message with another key. The oracle does
+// not come from the code: a proof made for M1 must be rejected for every M2 != M1 (the property's "verifies
+// for exactly that message"); M1 != M2 holds by construction (delta = 1 uses the random itself as message;
+// other slots hash it). Afterwards the valid one must still be accepted (no negative memory either).
+func (s *searcher) headerSequences(n int) {
+	thr := threshold()
+	defer setThreshold(thr)
+	sec := int64(1000000000)
+	for i := 0; i < n; i++ {
+		pk, sk := s.key()
+		pk2, _ := s.key()
+		rnd := s.r.Bytes(64)
+		ns := int64(s.r.Intn(2)) * sec // slot 1: the message is the parent random itself
+		m1 := logical.VerifC16GenVrfMsg(rnd, 1)
+		pi, err := ed25519.ECVRFProve(sk, m1)
+		if err != nil {
+			continue
+		}
+		pv := new(big.Int).SetBytes(pi).Bytes()
+		t := uint64(1) // stake 1: ratio capped, every value qualifies, so only the VRF step can reject
+		var qn uint64
+		hx.Guard(func() string { _, qn = logical.VerifC16ValidateProve(pi, 10, 0, t); return "" })
+		vbt := func(pk, rnd []byte, ns int64, h uint64) string {
+			return fmt.Sprintf("vbt %d %s %s %s %d %d 0 %d %d 0", thr, hx.Hex(pk), hx.Hex(pv), hx.Hex(rnd), ns, h, t, qn)
+		}
+		vbv := func(pk, m []byte) string {
+			return fmt.Sprintf("vbv %d %s %s %s 10 0 %d %d 0", thr, hx.Hex(pk), hx.Hex(pv), hx.Hex(m), t, qn)
+		}
+		rnd2 := flip(rnd, s.r.Intn(8*len(rnd)))
+		type stepT struct {
+			line, want, what string
+		}
+		valid := []stepT{{vbt(pk, rnd, ns, 10), "ok", "the honest header"}, {vbv(pk, m1), "ok", "the honest header (message given directly)"},
+			{vline(pk, pv, m1), "true", "the honest proof"}}
+		wrong := []stepT{
+			{vbt(pk, rnd2, ns, 10), "reject", "same proof and key, parent random with one bit flipped"},
+			{vbt(pk, rnd, ns+2*sec, 10), "reject", "same proof and key, next time slot (message hashed once more)"},
+			{vbt(pk, rnd2, ns+4*sec, 11), "reject", "same proof and key, other random, other slot, other height"},
+			{vbv(pk, flip(m1, s.r.Intn(8*len(m1)))), "reject", "same proof and key, message with one bit flipped"},
+			{vbv(pk2, m1), "reject", "same proof and message, another key"},
+			{vline(pk, pv, rnd2), "reject", "ECVRFVerify: same proof and key, other message"},
+		}
+		var seq []string
+		run := func(st stepT, phase string) {
+			seq = append(seq, st.line)
+			res := hx.Guard(func() string { return exec(st.line) })
+			s.evals++
+			accepted := res == "ok" || res == "true"
+			if st.want == "reject" && accepted {
+				s.report("proof-accepted-for-other-message",
+					fmt.Sprintf("%s is ACCEPTED (%s) after the valid header was verified in the same process: a proof is accepted for a message it was not made for", st.what, phase),
+					"reject (false / err)", append([]string{}, seq...)...)
+			}
+			if st.want != "reject" && !accepted {
+				s.report("honest-header-rejected-in-sequence",
+					fmt.Sprintf("%s is rejected (%s) %s", st.what, res, phase), st.want, append([]string{}, seq...)...)
+			}
+		}
+		if i%2 == 0 { // valid first, then the wrong ones, then valid again
+			for _, st := range valid {
+				run(st, "first")
+			}
+			for _, st := range wrong {
+				run(st, "after a valid one")
+			}
+			for _, st := range valid {
+				run(st, "again after the rejected ones")
+			}
+		} else { // wrong ones first (must not poison), then valid, then wrong again
+			for _, st := range wrong {
+				run(st, "before any valid one")
+			}
+			for _, st := range valid {
+				run(st, "after rejected ones")
+			}
+			for _, st := range wrong {
+				run(st, "after a valid one")
+			}
+		}
+	}
+	s.counts["header-sequences"] = n
+}
+
 // qnRange: whenever validateProve accepts, 1 <= qn <= MaxQN; and it is a function of its inputs.
 // refPad / refRatio: reference re-implementation of the padding and of the exact ratio/step of the qualification
 // rule from its written definition (math/big only), used to classify violations independently of the code.
@@ -924,6 +1013,7 @@ func search(a map[string]string) {
 	} else {
 		// history first: a poisoned package-level value must not be able to hide behind later phases
 		s.history(12 * scale)
+		s.headerSequences(6 * scale)
 		s.messageLengths(2 * scale)
 		s.proveValueLengths(6 * scale)
 		zeros := s.honest(12*scale, 60)
